@@ -34,7 +34,10 @@ Inductive step :=
 | SHandOver (ch d : N)                  (* Box::pin(sleep(d)) polled once, then sent on channel ch of the module *)
 | SRecvAwait (ch : N)                   (* receive a boxed Sleep from channel ch (log), await it (log) *)
 | STimeoutRecv (d ch : N)               (* timeout(d, receive from channel ch).await; a received Sleep is dropped *)
-| SSelRecv (recv_first : bool) (ch d : N).  (* select! { biased; x = receive from ch => 0 (x dropped), sleep(d) => 1 } *)
+| SSelRecv (recv_first : bool) (ch d : N)   (* select! { biased; x = receive from ch => 0 (x dropped), sleep(d) => 1 } *)
+| SKeep (rearm : bool) (d0 d2 x d3 : N).   (* keep-alive timer: boxed sleep(d0) polled once, armed with reset(now + d2);
+                                              select! { biased; it => 0, sleep(x) => 1 }; on 1: re-armed with
+                                              reset(now + d3) and awaited, or dropped *)
 
 Inductive vstate := VSleep (s : sleep) | VFlip (polled : bool) | VRecv (ch : N) | VGot (s : sleep).
 
@@ -46,7 +49,15 @@ Inductive aw :=
 | AwTick
 | AwRecv (ch : N)                       (* waiting for a boxed Sleep on channel ch *)
 | AwHeld (tr : N) (s : sleep)           (* received at tr, awaiting the received Sleep *)
-| AwSelRecv (recv_first : bool) (ch : N) (s : sleep).
+| AwSelRecv (recv_first : bool) (ch : N) (s : sleep)
+| AwKeep (rearm : bool) (d3 : N) (s sx : sleep)   (* select between the keep-alive timer s and sleep(x) *)
+| AwThen (pre : list N) (s : sleep).              (* [pre] is logged; the step ends when s completes *)
+
+(* A duration of at least FARK = 2^61 ns stands for Duration::MAX: `now + d` is SimTime::MAX
+   (exactly, at now = 0) or not representable (Sleep::far_future); either way the deadline is
+   SimTime::MAX = TMAX and the Sleep draws a fresh id like any other. *)
+Definition FARK : N := 2305843009213693952.
+Definition dl (now d : N) : N := if FARK <=? d then TMAX else now + d.
 
 (* the channels: (module, channel, sending task, the boxed Sleep), oldest first *)
 Definition mailbox := list (N * N * nat * sleep).
@@ -116,6 +127,22 @@ Definition poll_aw0 (now : N) (a : aw) (iv : option interval) (dr : driver)
     let '(r, s', dr') := sleep_poll now s dr in
     ((if r then Some [tr; now] else None), AwHeld tr s', iv, dr', false)
   | AwSelRecv rf ch s => (None, AwSelRecv rf ch s, iv, dr, false)   (* see [poll_aw] *)
+  | AwKeep rearm d3 s sx =>
+    let '(r, s', dr1) := sleep_poll now s dr in
+    if r then (Some [now; 0], AwKeep rearm d3 s' sx, iv, sleep_drop s' (sleep_drop sx dr1), false)
+    else
+      let '(rx, sx', dr2) := sleep_poll now sx dr1 in
+      if rx then
+        if rearm then
+          let '(s3, dr3) := sleep_reset s' (dl now d3) (sleep_drop sx' dr2) in
+          let '(r4, s4, dr4) := sleep_poll now s3 dr3 in
+          if r4 then (Some [now; 1; now], AwThen [now; 1] s4, iv, dr4, false)
+          else (None, AwThen [now; 1] s4, iv, dr4, false)
+        else (Some [now; 1; now], AwKeep rearm d3 s' sx', iv, sleep_drop s' (sleep_drop sx' dr2), false)
+      else (None, AwKeep rearm d3 s' sx', iv, dr2, false)
+  | AwThen pre s =>
+    let '(r, s', dr') := sleep_poll now s dr in
+    ((if r then Some (pre ++ [now]) else None), AwThen pre s', iv, dr', false)
   end.
 
 (* the value future of a timeout with the channels of module m at hand: a receive is Ready
@@ -174,26 +201,30 @@ Definition start_step0 (now : N) (s : step) (iv : option interval) (dr : driver)
   | SSleep d => (Some (AwSleep (sleep_new (now + d) nid)), iv, dr, nid + 1, lg)
   | SSleepUntil t => (Some (AwSleep (sleep_new t nid)), iv, dr, nid + 1, lg)
   | STimeout d (ISleep x) =>
-    (Some (AwTimeout (VSleep (sleep_new (now + x) nid)) (sleep_new (now + d) (nid + 1))), iv, dr, nid + 2, lg)
-  | STimeout d IFlip => (Some (AwTimeout (VFlip false) (sleep_new (now + d) nid)), iv, dr, nid + 1, lg)
+    (Some (AwTimeout (VSleep (sleep_new (now + x) nid)) (sleep_new (dl now d) (nid + 1))), iv, dr, nid + 2, lg)
+  | STimeout d IFlip => (Some (AwTimeout (VFlip false) (sleep_new (dl now d) nid)), iv, dr, nid + 1, lg)
   | SSelect biased a b =>
-    (Some (AwSelect biased (a =? b) (sleep_new (now + a) nid) (sleep_new (now + b) (nid + 1))), iv, dr, nid + 2, lg)
+    (Some (AwSelect biased (a =? b) (sleep_new (dl now a) nid) (sleep_new (dl now b) (nid + 1))), iv, dr, nid + 2, lg)
   | SIvNew p b => (None, Some (interval_new now p b nid), iv_drop iv dr, nid + 1, lg)
   | SIvTick => (Some AwTick, iv, dr, nid, lg)
   | SIvDrop => (None, None, iv_drop iv dr, nid, lg)
   | SReset polled d1 d2 =>
-    let s0 := sleep_new (now + d1) nid in
+    let s0 := sleep_new (dl now d1) nid in
     let '(s1, dr1) := if polled then let '(_, s1, dr1) := sleep_poll now s0 dr in (s1, dr1) else (s0, dr) in
-    let '(s2, dr2) := sleep_reset s1 (now + d2) dr1 in
+    let '(s2, dr2) := sleep_reset s1 (dl now d2) dr1 in
     (Some (AwSleep s2), iv, dr2, nid + 1, lg)
   | SDropSleep d =>
-    let '(_, s1, dr1) := sleep_poll now (sleep_new (now + d) nid) dr in
+    let '(_, s1, dr1) := sleep_poll now (sleep_new (dl now d) nid) dr in
     (None, iv, sleep_drop s1 dr1, nid + 1, lg ++ [now])
   | SLog => (None, iv, dr, nid, lg ++ [now])
   | SHandOver _ _ => (None, iv, dr, nid, lg)          (* see [start_step] *)
   | SRecvAwait ch => (Some (AwRecv ch), iv, dr, nid, lg)
-  | STimeoutRecv d ch => (Some (AwTimeout (VRecv ch) (sleep_new (now + d) nid)), iv, dr, nid + 1, lg)
-  | SSelRecv rf ch d => (Some (AwSelRecv rf ch (sleep_new (now + d) nid)), iv, dr, nid + 1, lg)
+  | STimeoutRecv d ch => (Some (AwTimeout (VRecv ch) (sleep_new (dl now d) nid)), iv, dr, nid + 1, lg)
+  | SSelRecv rf ch d => (Some (AwSelRecv rf ch (sleep_new (dl now d) nid)), iv, dr, nid + 1, lg)
+  | SKeep rearm d0 d2 x d3 =>
+    let '(_, s1, dr1) := sleep_poll now (sleep_new (dl now d0) nid) dr in
+    let '(s2, dr2) := sleep_reset s1 (dl now d2) dr1 in
+    (Some (AwKeep rearm d3 s2 (sleep_new (now + x) (nid + 1))), iv, dr2, nid + 2, lg)
   end.
 
 (* ... for task k of module m, with the channels *)
@@ -263,6 +294,8 @@ Definition held_sleeps (a : option aw) (iv : option interval) : list sleep :=
   | Some (AwTimeout (VSleep s) dl) => [s; dl]
   | Some (AwTimeout _ dl) => [dl]
   | Some (AwSelRecv _ _ s) => [s]
+  | Some (AwKeep _ _ s sx) => [s; sx]
+  | Some (AwThen _ s) => [s]
   | Some (AwSelect _ _ a b) => [a; b]
   | Some AwTick => match iv with Some i => [iv_delay i] | None => [] end
   | Some (AwHeld _ s) => [s]
@@ -437,14 +470,17 @@ Definition run_tasks (wfix : bool) (ts : list task) : world * bool :=
    task   := len [ mod start step* ]      (length-prefixed)   module = mod mod modules;
                                           start = 0: spawned by at_sim_start, else by a message at [start]
    step   := 1 d | 2 t | 3 d k x | 4 f a b | 5 p beh k b1..bk | 6 f d1 d2 | 7 d | 8 | 9 ch d | 10 ch
-             | 11 d ch | 12 f ch d
+             | 11 d ch | 12 f ch d | 13 f d0 d2 x d3
      3: timeout(d, if k even then sleep(x) else flip)       4: f odd = `biased;`
      5: interval(max 1 p), behaviour beh mod 3 (0 Burst 1 Delay 2 Skip), k ticks, after tick i
         sleep(b_i) if b_i > 0                               6: f odd = polled once before the reset
      9: Box::pin(sleep(d)) polled once and sent on channel ch of the task's module
      10: receive a boxed Sleep from channel ch of the task's module, then await it
      11: timeout(d, receive from channel ch); the received Sleep is dropped
-     12: select! { biased; receive from ch => 0, sleep(d) => 1 }, f odd: the receive branch comes first *)
+     12: select! { biased; receive from ch => 0, sleep(d) => 1 }, f odd: the receive branch comes first
+     13: keep-alive timer: Box::pin(sleep(d0)) polled once, reset(now + d2); select!{ biased; it => 0, sleep(x) => 1 };
+         on 1: f odd: reset(now + d3) and await, f even: drop
+     a duration >= 2^61 is Duration::MAX (steps 3 4 6 7 11 12 13): the deadline is SimTime::MAX, printed as 2^62 - 1 *)
 Definition beh_of (b : N) : behaviour :=
   if b mod 3 =? 0 then Burst else if b mod 3 =? 1 then Delay else Skip.
 
@@ -470,6 +506,7 @@ Definition dec_step (l : list N) : option (list step * list N) :=
   | 10 :: ch :: r => Some ([SRecvAwait ch], r)
   | 11 :: d :: ch :: r => Some ([STimeoutRecv d ch], r)
   | 12 :: f :: ch :: d :: r => Some ([SSelRecv (N.odd f) ch d], r)
+  | 13 :: f :: d0 :: d2 :: x :: d3 :: r => Some ([SKeep (N.odd f) d0 d2 x d3], r)
   | _ => None
   end.
 
@@ -502,7 +539,7 @@ Definition decode (l : list N) : list task :=
    receive+await -> instant of the receive, instant the received Sleep completed
    (a task still awaiting a received Sleep has logged the receive) *)
 Definition full_log (tk : task) : list N :=
-  t_log tk ++ match t_cur tk with Some (AwHeld tr _) => [tr] | _ => [] end.
+  t_log tk ++ match t_cur tk with Some (AwHeld tr _) => [tr] | Some (AwThen pre _) => pre | _ => [] end.
 
 Definition enc_task (tk : task) : list N :=
   N.of_nat (length (full_log tk)) :: full_log tk ++ [b2n (t_fin tk)].
